@@ -9,7 +9,6 @@ import (
 	"sync"
 
 	"github.com/vechain/thor/v2/block"
-	"github.com/vechain/thor/v2/chain"
 	"github.com/vechain/thor/v2/thor"
 
 	"verif/harness/internal/hx"
@@ -106,6 +105,7 @@ type Run struct {
 	W          *World
 	Scn        *Scenario
 	Blocks     []*block.Block // produced blocks (nil: could not be produced)
+	Contracts  []thor.Address
 	U          *Node
 	Deliveries []*Delivery
 	Final      NodeObs
@@ -124,30 +124,7 @@ func (r *Run) fail(class, summary string, found bool, cut int) {
 // Build produces the blocks on a builder node and delivers them to the uninterrupted node, recording its writes.
 func Build(w *World, scn *Scenario) (*Run, error) {
 	r := &Run{W: w, Scn: scn, FinSet: map[thor.Bytes32]bool{}, Views: map[thor.Bytes32]*BlockView{}}
-	builder := w.NewNode(false)
-	defer builder.Close()
-	var contracts []thor.Address
-	r.Blocks = make([]*block.Block, len(scn.Blocks))
-	for i, spec := range scn.Blocks {
-		var parent *chain.BlockSummary
-		if spec.Parent < 0 {
-			parent, _ = builder.Repo.GetBlockSummary(builder.Genesis.Header().ID())
-		} else if spec.Parent < i && r.Blocks[spec.Parent] != nil {
-			parent, _ = builder.Repo.GetBlockSummary(r.Blocks[spec.Parent].Header().ID())
-		}
-		if parent == nil {
-			continue
-		}
-		b, created, err := builder.Produce(parent, spec, contracts)
-		if err != nil {
-			continue
-		}
-		if cls, err := builder.Import(b); err != nil || cls != ImpOK {
-			continue // the builder itself does not accept it (e.g. conflicts with its finalized block)
-		}
-		contracts = append(contracts, created...)
-		r.Blocks[i] = b
-	}
+	r.Blocks, r.Contracts = ProduceAll(w, scn)
 
 	u := w.NewNode(false)
 	r.U = u
